@@ -126,7 +126,7 @@ def coq_build():
     lock = open(os.path.join(COQ, ".build.lock"), "w")
     fcntl.flock(lock, fcntl.LOCK_EX)
     try:
-        rc, out = sh(["bash", "-c", "coq_makefile -f _CoqProject -o Makefile >/dev/null 2>&1 && timeout 1500 make -j%d 2>&1" % NPROC],
+        rc, out = sh(["bash", "-c", "coq_makefile -f _CoqProject -o Makefile >/dev/null 2>&1 && timeout 1500 make -k -j%d 2>&1" % NPROC],
                      1600, cwd=COQ)
     finally:
         fcntl.flock(lock, fcntl.LOCK_UN)
